@@ -55,6 +55,12 @@ type Server struct {
 
 var safePathSegmentRe = regexp.MustCompile(`^[A-Za-z0-9._-]+$`)
 
+// versionGateKeeper is a gate keeper that can tell the versions (hashes) of a
+// file name apart when asked for a status
+type versionGateKeeper interface {
+	GetVersionStatus(relPath, hash string, sent time.Time) int
+}
+
 func (s *Server) getGateKeeper(r *http.Request) sts.GateKeeper {
 	source := getSourceName(r)
 	if source == "" {
@@ -531,6 +537,11 @@ func (s *Server) routeValidate(w http.ResponseWriter, r *http.Request) {
 			log.Debug("STS validate request rejected: non-local file name")
 			w.WriteHeader(http.StatusBadRequest)
 			return
+		}
+		if vgk, ok := gateKeeper.(versionGateKeeper); ok && f.Hash != "" {
+			// The sender says which version of the name it is asking about
+			respMap[f.Name] = vgk.GetVersionStatus(f.GetName(), f.Hash, f.GetStarted())
+			continue
 		}
 		respMap[f.Name] = gateKeeper.GetFileStatus(f.GetName(), f.GetStarted())
 	}
